@@ -98,7 +98,7 @@ def rand_items(rng, schema, nocase=False, depth=0, maxitems=6, bad_rate=0, comme
             if o.flags & F['TITLE']:
                 title = b' ' + rng.pick(TITLES)
             if o.flags & F['KEYSTRVAL']:
-                body = [rng.pick([b'k1', b'k2', b'key3']) + b' = ' + rng.pick(STR_TOKENS) for _ in range(rng.below(3))]
+                body = [rng.pick([b'k1', b'k2', b'key3'] + ([b'""', b"''", b'k1'] if bad else [])) + b' = ' + rng.pick(STR_TOKENS) for _ in range(rng.below(3))]
                 body += rand_items(rng, o.sub, nocase, depth + 1, 2, bad_rate, comments)
             else:
                 body = rand_items(rng, o.sub, nocase, depth + 1, 3, bad_rate, comments)
